@@ -951,7 +951,9 @@ func encCheckCpus(cp *encCpus, m *encMethod, fl uint8, o *encObs) string {
 }
 
 // operand numbers to visit for a method with B operand bits
-func encEnum(bits uint, thorough bool, seed uint64, visit func(n uint64)) {
+func encEnum(bits uint, thorough bool, seed uint64, visit0 func(n uint64, primary bool)) {
+	primary := true
+	visit := func(n uint64) { visit0(n, primary) }
 	switch {
 	case bits == 0:
 		visit(0)
@@ -970,6 +972,7 @@ func encEnum(bits uint, thorough bool, seed uint64, visit func(n uint64)) {
 				visit((n * 257) & mask)
 			}
 		}
+		primary = false // revisits and random values: not counted as distinct
 		for _, b := range []uint64{0, 0xFF, 0x100, 0xFFFF, 0x10000, 0x7FFFFF, 0x800000, 0xFFFFFF, 0x123456, 0xFEDCBA} {
 			for d := uint64(0); d < 4; d++ {
 				visit((b + d) & mask)
@@ -1046,14 +1049,14 @@ func encFalsify(args []string) int {
 			av := make([]int64, len(m.pars))
 			for _, fl := range encStates {
 				k := 0
-				encEnum(m.bits, thorough, seed, func(n uint64) {
+				encEnum(m.bits, thorough, seed, func(n uint64, primary bool) {
 					m.argsOf(n, av)
 					c.call(fl, av, &o)
 					r.calls++
 					if !o.panicked && len(o.bytes) > 0 {
 						r.ops[o.bytes[0]] = true
 					}
-					if o.panicked || len(o.bytes) > 1 {
+					if primary && (o.panicked || len(o.bytes) > 1) {
 						r.nontrivial++
 					}
 					fail := encCheckCall(m, mg, conv, fl, av, &o, blockSD[m.name])
